@@ -5,7 +5,7 @@
    - solve() with its label arguments (TracerSolve.v) against SolveAll.solve_M. *)
 From Coq Require Import ZArith List Bool Lia.
 Import ListNotations.
-Require Import PyBase Solver SolverFacts SolveAll Tracer TracerFacts TracerSolve.
+Require Import PyBase Solver SolverFacts SolveAll SolveAllFacts Tracer TracerFacts TracerSolve.
 Open Scope Z_scope.
 
 Section TracerFacts2.
@@ -223,6 +223,119 @@ Section TracerFacts2.
       apply (trace_noninterference_solve_t num sub absf ltb isfin zero cfg a reset ev before after
                ev_shape before_shape after_shape).
       apply Hr. reflexivity.
+    Qed.
+
+    (* ------------------------------------------------------------ the Trace objects during a multi-period solve() *)
+    Hypothesis a_on : truthy a = true.
+
+    (* one traced solve_t whose trace_t calls cannot fail: shapes and lengths are kept, `ready` survives at every
+       position, only the period's own Trace moves *)
+    Lemma traced_solve_t_step d o t s tr ts s1 tr1 out1 :
+      ready cfg a reset t (vals_of s) tr -> ready_at ts (vals_of s) tr ->
+      traced_solve_t cfg a reset ev before after d o t s tr = ((s1, tr1), out1) ->
+      exists p, py_pos (length tr) t = Some p /\
+        shape (vals_of s1) = shape (vals_of s) /\ length tr1 = length tr /\ length (status s1) = length (status s) /\
+        ready_at ts (vals_of s1) tr1 /\
+        (forall q, q <> p -> nth q tr1 empty_trace = nth q tr empty_trace).
+    Proof.
+      intros (Hv & p & Hp & Hw) Hts Hrun.
+      pose proof (traced_solve_t_on num sub absf ltb isfin zero cfg a reset ev before after ev_shape before_shape after_shape
+                    d o t s tr p a_on Hv Hp Hw) as H.
+      cbv zeta in H. rewrite Hrun in H.
+      destruct (solve_t_M ev before after d o t s) as [s1' out1'] eqn:EU. cbn [fst snd] in H.
+      destruct H as (H1 & H2 & H3 & H4 & H5). inversion H1; subst s1' out1'. clear H1.
+      exists p. split; [exact Hp|]. split; [exact H2|]. split; [exact H3|].
+      split; [exact (solve_t_length num sub absf ltb isfin zero ev before after d o t s s1 out1 EU)|].
+      split; [|exact H5].
+      intros t' Ht'. apply (ready_preserved num cfg a reset t t' (vals_of s) (vals_of s1) tr tr1 p H2 H3 Hp H4 H5).
+      apply Hts. exact Ht'.
+    Qed.
+
+    Lemma traced_run_periods_app d o : forall (l1 l2 : list (Z * L)) s tr acc,
+      traced_run_periods d o (l1 ++ l2) s tr acc
+      = match traced_run_periods d o l1 s tr acc with
+        | ((s1, tr1), Ret acc1) => traced_run_periods d o l2 s1 tr1 acc1
+        | (st, Raise e) => (st, Raise e)
+        end.
+    Proof.
+      induction l1 as [|[t lab] r IH]; intros l2 s tr acc; [reflexivity|].
+      cbn [app TracerSolve.traced_run_periods].
+      destruct (traced_solve_t cfg a reset ev before after d o t s tr) as [[s1 tr1] [b|e]]; [apply IH|reflexivity].
+    Qed.
+
+    (* solve() moves only the Traces of the periods it visits; store shape, number of Traces and of periods stay;
+       `ready` survives everywhere it held *)
+    Theorem traced_run_periods_on d o : forall (ps : list (Z * L)) s tr acc ts,
+      ready_at (map fst ps) (vals_of s) tr -> ready_at ts (vals_of s) tr ->
+      let R := traced_run_periods d o ps s tr acc in
+      let s' := fst (fst R) in let tr' := snd (fst R) in
+      shape (vals_of s') = shape (vals_of s) /\ length tr' = length tr /\ length (status s') = length (status s) /\
+      ready_at ts (vals_of s') tr' /\
+      (forall q, (forall t, In t (map fst ps) -> py_pos (length tr) t <> Some q) ->
+                 nth q tr' empty_trace = nth q tr empty_trace).
+    Proof.
+      induction ps as [|[t lab] r IH]; intros s tr acc ts Hps Hts; cbv zeta.
+      { cbn [TracerSolve.traced_run_periods fst snd].
+        split; [reflexivity|]. split; [reflexivity|]. split; [reflexivity|]. split; [exact Hts|]. intros q _. reflexivity. }
+      cbn [TracerSolve.traced_run_periods].
+      destruct (traced_solve_t cfg a reset ev before after d o t s tr) as [[s1 tr1] out1] eqn:Hrun.
+      assert (Ht : ready cfg a reset t (vals_of s) tr) by (apply Hps; left; reflexivity).
+      assert (Hts' : ready_at (ts ++ map fst r) (vals_of s) tr).
+      { intros t' Ht'. apply in_app_or in Ht'. destruct Ht' as [Q|Q]; [apply Hts; exact Q|apply Hps; right; exact Q]. }
+      destruct (traced_solve_t_step d o t s tr (ts ++ map fst r) s1 tr1 out1 Ht Hts' Hrun) as (p & Hp & H2 & H3 & H4 & H5 & H6).
+      assert (Hfr : forall q, (forall t0, In t0 (map fst ((t, lab) :: r)) -> py_pos (length tr) t0 <> Some q) ->
+                              nth q tr1 empty_trace = nth q tr empty_trace).
+      { intros q Hq. apply H6. intros ->. apply (Hq t); [left; reflexivity|exact Hp]. }
+      destruct out1 as [b|e].
+      - assert (Hr1 : ready_at (map fst r) (vals_of s1) tr1).
+        { intros t' Ht'. apply H5. apply in_or_app. right. exact Ht'. }
+        assert (Hr2 : ready_at ts (vals_of s1) tr1).
+        { intros t' Ht'. apply H5. apply in_or_app. left. exact Ht'. }
+        pose proof (IH s1 tr1 (acc ++ [(lab, t, b)]) ts Hr1 Hr2) as IH'.
+        cbv zeta in IH'. destruct IH' as (I1 & I2 & I3 & I4 & I5).
+        split; [congruence|]. split; [congruence|]. split; [congruence|]. split; [exact I4|].
+        intros q Hq. rewrite I5.
+        + apply Hfr. exact Hq.
+        + intros t0 Ht0. rewrite H3. apply Hq. right. exact Ht0.
+      - cbn [fst snd]. split; [exact H2|]. split; [exact H3|]. split; [exact H4|]. split.
+        + intros t' Ht'. apply H5. apply in_or_app. left. exact Ht'.
+        + exact Hfr.
+    Qed.
+
+    (* WITHIN a multi-period solve(): the Trace of a period that is visited once is exactly what that period's own
+       traced solve_t writes, starting from the Trace the period had before solve() was called — earlier and later
+       periods of the run do not touch it.  (s1, tr1) is the instance when the period's turn comes; the facts listed
+       for it are the hypotheses of the single-period trace theorems, so those apply to it.) *)
+    Theorem trace_of_period_within_solve d o (l1 l2 : list (Z * L)) t lab s tr acc p s1 tr1 acc1 :
+      ready_at (map fst (l1 ++ (t, lab) :: l2)) (vals_of s) tr ->
+      py_pos (length tr) t = Some p ->
+      (forall t', In t' (map fst l1 ++ map fst l2) -> py_pos (length tr) t' <> Some p) ->
+      traced_run_periods d o l1 s tr acc = ((s1, tr1), Ret acc1) ->
+      nth p tr1 empty_trace = nth p tr empty_trace /\
+      ready cfg a reset t (vals_of s1) tr1 /\ length tr1 = length tr /\ length (status s1) = length (status s) /\
+      nth p (snd (fst (traced_run_periods d o (l1 ++ (t, lab) :: l2) s tr acc))) empty_trace
+      = nth p (snd (fst (traced_solve_t cfg a reset ev before after d o t s1 tr1))) empty_trace.
+    Proof.
+      intros Hall Hp Hother Hl1.
+      assert (Hsub1 : ready_at (map fst l1) (vals_of s) tr).
+      { intros t' Ht'. apply Hall. rewrite map_app. apply in_or_app. left. exact Ht'. }
+      pose proof (traced_run_periods_on d o l1 s tr acc _ Hsub1 Hall) as H. cbv zeta in H. rewrite Hl1 in H.
+      cbn [fst snd] in H. destruct H as (A1 & A2 & A3 & A4 & A5).
+      assert (Hp1 : nth p tr1 empty_trace = nth p tr empty_trace).
+      { apply A5. intros t' Ht'. apply Hother. apply in_or_app. left. exact Ht'. }
+      assert (Hrt : ready cfg a reset t (vals_of s1) tr1).
+      { apply A4. rewrite map_app. apply in_or_app. right. left. reflexivity. }
+      split; [exact Hp1|]. split; [exact Hrt|]. split; [exact A2|]. split; [exact A3|].
+      rewrite traced_run_periods_app, Hl1. cbn [TracerSolve.traced_run_periods].
+      destruct (traced_solve_t cfg a reset ev before after d o t s1 tr1) as [[s2 tr2] out2] eqn:Hrun.
+      destruct out2 as [b|e]; [|reflexivity].
+      assert (Hl2 : ready_at (map fst l2) (vals_of s1) tr1).
+      { intros t' Ht'. apply A4. rewrite map_app. apply in_or_app. right. right. exact Ht'. }
+      destruct (traced_solve_t_step d o t s1 tr1 (map fst l2) s2 tr2 (Ret b) Hrt Hl2 Hrun) as (p' & Hp' & B2 & B3 & B4 & B5 & B6).
+      assert (Hnil : ready_at [] (vals_of s2) tr2) by (intros t' []).
+      pose proof (traced_run_periods_on d o l2 s2 tr2 (acc1 ++ [(lab, t, b)]) [] B5 Hnil) as H. cbv zeta in H.
+      destruct H as (_ & _ & _ & _ & C5).
+      cbn [fst snd]. apply C5. intros t' Ht'. rewrite B3, A2. apply Hother. apply in_or_app. right. exact Ht'.
     Qed.
   End SolveAllEntry.
 End TracerFacts2.
